@@ -218,7 +218,10 @@ def _parenthesised_star(node):
         line = _SRC_LINES[node.lineno - 1]
     except IndexError:
         return False
-    i = node.col_offset - 1
+    # col_offset counts UTF-8 bytes: look at the line as bytes
+    line = line.encode("utf-8", "surrogatepass")
+    line = "".join(chr(b) if b < 128 else "x" for b in line)
+    i = min(node.col_offset, len(line)) - 1
     while i >= 0 and line[i] in " \t\f":
         i -= 1
     if i < 0 or line[i] != "(":
